@@ -28,7 +28,7 @@ CLAIMED = {
         design="§9 C17", note=NOTE + "header difference classification across commits is modelled and tied by correspondence (its theorems are partial).", technique=T),
     "C02": dict(
         text="Theorems on the WAL model: grouping of valid frames into commit records (nothing lost, each record ends in its only commit frame), version count = commit frames, page->frame and page->version indices answer every lookup with the latest frame / record (also with duplicate pages in one transaction), frame image offset = file-format offset, where each version reads each page from (wal_page_source, history_indices), stale-salt frames never served, accepted logs end in a commit frame. Row-level claims by vh.dump correspondence + per-commit SQLite snapshots, an independent checksum-verifying WAL reader for page images, and SQLite's own view of the pair for the newest version.",
-        design="§9 C02", note=NOTE + "partial: the composition 'version k rows = SQLite rows after commit k' is decided by correspondence + snapshots; WAL checksums are not read by the tool.", technique=T),
+        design="§9 C02", note=NOTE + "content level proved (Properties/C02Content: version k serves, for every page it covers, exactly SQLite's snapshot page after the k-th transaction - latest frame at or before the commit else the database file's page; a page written twice shows its last image; every byte taken from the log lies inside the valid run); the step from page bytes to rows is C01's tree theorem, composed by the correspondence; WAL checksums are not read by the tool.", technique=T),
     "C05": dict(
         text="Theorems (Properties/C05): for EVERY cut offset n of the WAL file, the version history of the cut-off log (when accepted) is an initial segment, in commit order, of the history of the whole log, with equal Version records and equal version interfaces as functions (truncated_history_prefix / _pointwise / _take / _eq_restricted); a cut inside the 32-byte header is refused; every version k>=1 of an accepted cut-off history is the commit record of the k-th transaction of the whole log, closed by its commit frame, all of whose frames lie wholly below the cut (versions_committed); cuts right after a commit frame are accepted (non-vacuity). Frame-level half in Properties/C02. Tied by vh.dump correspondence over truncation offsets, per-commit snapshots and SQLite's recovery of the same pair.",
         design="§9 C02/C05", note=NOTE + "truncation only (torn writes inside a frame are outside the quantifier); frame checksums are not verified by the tool nor the model: 'equals what SQLite recovers' is decided by the recovery oracle in the correspondence stage, not by a theorem.", technique=T),
@@ -81,7 +81,7 @@ CLAIMED = {
         design="§9 C09", note=NOTE + 'partial: recall through the freeblock/partial pattern at region level is decided by the grid, not by a theorem; open findings C09-02/03/05.', technique=T),
     "C06": dict(
         text="Theorems on the page-layout check (Properties/C06: stable sort, telescoping identity, every SQLite-well-formed layout accepted with fragment total = header count, accepted layouts tile [content offset, page end) without overlap or gap, strict checking irrelevant on accepted pages, freeblock walk bounded and ascending) and the page round trip (Properties/C01Tree: a page laid out as Spec.PageLaidOut — header, pointer array, cells with SQLite's 4-byte minimum allocation, freeblock chain, <= 60 fragment bytes — is parsed to exactly its cells and freeblocks). Spec.PageLaidOut is run (executable form, proved equivalent) on the pages SQLite wrote. Page census tied by full-dump correspondence and SQLite's dbstat / page_count / freelist_count / integrity_check, per version for WAL histories.",
-        design="§9 C06", note=NOTE + 'census theorem (each page classified exactly once over a whole database) is partial: decided by correspondence + dbstat, not by a Lean theorem over a whole-file specification.', technique=T),
+        design="§9 C06", note=NOTE + 'census (Properties/C06Census): an accepted census has exactly the keys 1..N, each page's class is that of the last source listing it, and under pairwise disjoint sources (what SQLite guarantees; measured against dbstat) every page is listed exactly once with that source's class; the code's two checks alone do NOT detect a page listed twice when all of 1..N are covered (census_accepts_iff_pages_covered, machine-checked witness) - relevant to damaged files only.', technique=T),
     "C01": dict(
         text='Theorems (Properties/C01Tree, C01Cell, C01): a table b-tree laid out in the file as SQLite lays it out (Spec.TreeLaidOut over Spec.PageLaidOut over Spec.writeTableLeafCell / encodeRecord, any depth, overflow chains, page 1 included) is parsed, given the stated recursion budget, into exactly its leaf cells in traversal order, each with the stored rowid and column values (table_tree_rows); cell- and page-level round trips; codecs (C15), payload split / chain shape (C16), layout acceptance (C06). The specification is validated against files SQLite wrote (every sampled live cell and page satisfies it). Full-pipeline executable model compared section by section with the implementation over the whole configuration grid, rows compared with SQLite.',
         design="§9 C01", note=NOTE + 'the whole-database statement (schema row -> root page -> tree) is composed by the correspondence, not by one theorem; schema SQL parsing is outside the model; usable size = page size (reserved bytes are refused by the tool).', technique=T),
